@@ -35,7 +35,7 @@ template <int F, class T, class X, class C> inline T call(const X &x, const C &c
 // p0: primary source (n elements; the parent buffer for the view kinds), p1: second operand of a+b / a-b,
 // p2: the other argument of inner
 template <int F, class T, size_t N, int K>
-T red_thunk(const T *p0, const T *p1, const T *p2, int first, int step) {
+T red_thunk(const T *p0, const T *p1, const T *p2, int first, int step) { vf::ArmedThunk vf_armed_;
   Tensor<T, N> C;
   if (F == F_INNER) std::copy(p2, p2 + N, C.data()); else C.fill(T(1));
   if constexpr (K == K_TENSOR) {
@@ -64,7 +64,7 @@ T red_thunk(const T *p0, const T *p1, const T *p2, int first, int step) {
 
 // trace: K_TENSOR, K_MAP, K_ADD
 template <class T, size_t M, int K>
-T trace_thunk(const T *p0, const T *p1) {
+T trace_thunk(const T *p0, const T *p1) { vf::ArmedThunk vf_armed_;
   if constexpr (K == K_TENSOR) { Tensor<T, M, M> A; std::copy(p0, p0 + M * M, A.data()); return trace(A); }
   else if constexpr (K == K_MAP) { TensorMap<T, M, M> A(const_cast<T *>(p0)); return trace(A); }
   else { Tensor<T, M, M> A, B; std::copy(p0, p0 + M * M, A.data()); std::copy(p1, p1 + M * M, B.data()); return trace(A + B); }
@@ -72,7 +72,7 @@ T trace_thunk(const T *p0, const T *p1) {
 
 // determinant: strategy S (0 Simple, 1 LU, 2 QR); K_TENSOR: determinant<S>(A), K_ADD: det<S>(A+B)
 template <class T, size_t M, int S, int K>
-T det_thunk(const T *p0, const T *p1) {
+T det_thunk(const T *p0, const T *p1) { vf::ArmedThunk vf_armed_;
   constexpr DetCompType DT = S == 0 ? DetCompType::Simple : (S == 1 ? DetCompType::LU : DetCompType::QR);
   Tensor<T, M, M> A; std::copy(p0, p0 + M * M, A.data());
   if constexpr (K == K_TENSOR) return determinant<DT>(A);
@@ -87,7 +87,7 @@ template <int PF, class X> inline int pcall(const X &x) {
   else return (none_of(x) ? 1 : 0) | (any_of(x) ? 2 : 0);
 }
 template <int PF, class T, size_t N, int PK>
-int pred_thunk(const unsigned char *pat, const T *a, const T *b, T s) {
+int pred_thunk(const unsigned char *pat, const T *a, const T *b, T s) { vf::ArmedThunk vf_armed_;
   if constexpr (PK == 0) {
     Tensor<bool, N> B; for (size_t i = 0; i < N; ++i) B.data()[i] = pat[i] != 0;
     return pcall<PF>(B);
@@ -103,7 +103,7 @@ int pred_thunk(const unsigned char *pat, const T *a, const T *b, T s) {
 
 // isequal: QK 0 (Tensor,Tensor) 1 (a+z, Tensor) 2 (Tensor MxM, trans(Tensor MxM)) — N = M*M for QK 2
 template <class T, size_t N, size_t M, int QK>
-bool iseq_thunk(const T *a, const T *z, const T *b, double tol, int usedef) {
+bool iseq_thunk(const T *a, const T *z, const T *b, double tol, int usedef) { vf::ArmedThunk vf_armed_;
   if constexpr (QK == 2) {
     Tensor<T, M, M> A, Bt; std::copy(a, a + M * M, A.data()); std::copy(b, b + M * M, Bt.data());
     return usedef ? isequal(A, trans(Bt)) : isequal(A, trans(Bt), tol);
@@ -115,7 +115,7 @@ bool iseq_thunk(const T *a, const T *z, const T *b, double tol, int usedef) {
 }
 // issymmetric: QK 0 Tensor, 1 a+z, 2 trans(a)
 template <class T, size_t M, int QK>
-bool issym_thunk(const T *a, const T *z, double tol, int usedef) {
+bool issym_thunk(const T *a, const T *z, double tol, int usedef) { vf::ArmedThunk vf_armed_;
   Tensor<T, M, M> A; std::copy(a, a + M * M, A.data());
   if constexpr (QK == 0) return usedef ? issymmetric(A) : issymmetric(A, tol);
   else if constexpr (QK == 1) { Tensor<T, M, M> Z; std::copy(z, z + M * M, Z.data()); return usedef ? issymmetric(A + Z) : issymmetric(A + Z, tol); }
@@ -123,7 +123,7 @@ bool issym_thunk(const T *a, const T *z, double tol, int usedef) {
 }
 // isorthogonal: QK 0 Tensor, 1 a+z
 template <class T, size_t M, int QK>
-bool isorth_thunk(const T *a, const T *z, double tol, int usedef) {
+bool isorth_thunk(const T *a, const T *z, double tol, int usedef) { vf::ArmedThunk vf_armed_;
   Tensor<T, M, M> A; std::copy(a, a + M * M, A.data());
   if constexpr (QK == 0) return usedef ? isorthogonal(A) : isorthogonal(A, tol);
   else { Tensor<T, M, M> Z; std::copy(z, z + M * M, Z.data()); return usedef ? isorthogonal(A + Z) : isorthogonal(A + Z, tol); }
